@@ -439,7 +439,8 @@ Section Sound.
         * pose proof (same_args (arg_ok G) l rs arg_ok_sc H Hrs Hgl Hargs) as Hsame.
           assert (E1 : sc G (fst rr) = 1).
           { unfold infer_fn in Hs. rewrite Hf, Hfc in Hs. destruct rs as [|r0 rest]; [discriminate|].
-            injection Hs as <-. cbn [fst]. inversion Hrs as [|x0 ? l0 ? Hx0 _]; subst. cbn [forallb] in Hargs.
+            assert (Hfst : fst rr = fst r0) by (destruct (snd r0); try discriminate; injection Hs as <-; reflexivity).
+            rewrite Hfst. inversion Hrs as [|x0 ? l0 ? Hx0 _]; subst. cbn [forallb] in Hargs.
             apply andb_prop in Hargs as [Ha0 _]. destruct (arg_ok_sc x0 Ha0) as [n [Hu Hn]].
             rewrite (unit_of_ok _ _ _ Hx0) in Hu. injection Hu as ->. exact Hn. }
           apply one_rel_at; [exact E1|]. rewrite sSI_fn, sN_fn.
